@@ -49,6 +49,7 @@ structure Job where
   begun : Bool          -- closure invoked (operation open from here ...)
   ended : Bool          -- ... to here (completed or destroyed)
   reg : Option Waker    -- waker currently registered with the awaited event (oneshot receiver)
+  sig : Bool := false   -- ghost: the job has executed its signal step (result handed to the SchedulerFuture)
   deriving DecidableEq, Repr, Hashable, Inhabited
 
 inductive ResState where
